@@ -1,0 +1,24 @@
+//! A module that can be imported `as std` in a file: everything resolves to the real standard
+//! library except threads, sockets, blocking synchronisation and `Instant`, which resolve to the
+//! models of this crate.
+pub use ::std::*;
+
+pub mod thread {
+    pub use crate::verif::thread::*;
+    pub use ::std::thread::{available_parallelism, Result};
+}
+
+pub mod net {
+    pub use crate::verif::net::{Incoming, Shutdown, TcpListener, TcpStream, ToSocketAddrs};
+    pub use ::std::net::{IpAddr, Ipv4Addr, Ipv6Addr, SocketAddr};
+}
+
+pub mod sync {
+    pub use crate::verif::sync::{Barrier, BarrierWaitResult, Condvar, Mutex, MutexGuard};
+    pub use ::std::sync::{atomic, mpsc, Arc, LockResult, Once, PoisonError, RwLock, Weak};
+}
+
+pub mod time {
+    pub use crate::verif::clock::StdInstant as Instant;
+    pub use ::std::time::{Duration, SystemTime, UNIX_EPOCH};
+}
